@@ -130,9 +130,11 @@ def discharge(F, fn, s, dbname, table_field_names):
             # index by the induction variable of 0..len(recv)
             if _induction_of(idx, recv):
                 return "induction variable of 0..len"
-            g = _len_guard(fn, s["bb"], a[1], recv)
+            g = _len_guard(fn, s["bb"], a[1], recv, (t["func"]["fn"].get("self_ty") or ""))
             if g:
                 return "dominated by `idx < len`"
+            if _counter_guard(fn, s["bb"], a[1], (t["func"]["fn"].get("self_ty") or "")):
+                return "loop counter: every definition reaches the index only through `idx < len` (0 through `len != 0`)"
             # range index with constant bounds into fixed-size array
             st = (t["func"]["fn"].get("self_ty") or "")
             if idx[0] == "agg" and all(x[0] == "const" for x in idx[2]) and re.match(r"^\[u8; \d+\]$|FixedBytes<\d+>", st):
@@ -205,25 +207,89 @@ def _strip(t):
     return t
 
 
-def _len_guard(fn, bb, idx_op, recv):
-    """some controlling edge of bb says idx < len(recv')  (idx - len + 1 <= 0)"""
-    seen = set()
-    st = [bb]
-    forms = edge_forms(fn)
-    while st:
-        x = st.pop()
-        if x in seen:
-            continue
-        seen.add(x)
-        for (a, s) in control_deps(fn).get(x, set()):
-            for (b2, s2, fm, line) in forms:
-                if b2 == a and s2 == s and fm.rel == "<=":
-                    ts = {show(t): cf for t, cf in fm.lin.terms.items()}
-                    lens = [t for t in ts if "len(" in t]
-                    if lens and ts[lens[0]] == -1 and fm.lin.k >= 1 and len(ts) == 2:
-                        return True
-            st.append(a)
+def _len_guard(fn, bb, idx_op, recv, coll_ty=None):
+    """some controlling edge of bb says idx < len(X)  (idx - len + 1 <= 0) where X has the indexed collection's type"""
+    def same(tm):
+        if coll_ty is None:
+            return True
+        for x in calls_in(tm):
+            if x[1].split("::")[-1] == "len" and x[3]:
+                return x[3].replace(" ", "") == coll_ty.replace(" ", "")
+        return True
+    from terms import edge_dominates
+    for (b2, s2, fm, line) in edge_forms(fn):
+        if fm.rel == "<=":
+            lens = [(t, cf) for t, cf in fm.lin.terms.items() if "len(" in show(t) and same(t)]
+            if lens and lens[0][1] == -1 and fm.lin.k >= 1 and len(fm.lin.terms) == 2 and edge_dominates(fn, (b2, s2), bb):
+                return True
     return False
+
+
+def _counter_local(fn, op):
+    """the mutable counter local behind an index operand (through plain copies)"""
+    if "l" not in op:
+        return None
+    l = op["l"]
+    for _ in range(6):
+        ds = [d for d in fn.defs().get(l, []) if d[2] == "assign"]
+        if len(ds) == 1 and ds[0][3]["rv"]["k"] == "use" and "l" in ds[0][3]["rv"]["ops"][0] and not ds[0][3]["rv"]["ops"][0].get("p"):
+            l = ds[0][3]["rv"]["ops"][0]["l"]
+        else:
+            break
+    return l
+
+
+def _counter_guard(fn, site_bb, idx_op, coll_ty):
+    """loop-carried bound: the index is a counter local; from *every* assignment of the counter, the index site is
+    reachable only through an edge proving counter < len(X) (for the initial constant c: c < len(X), e.g. len != 0)"""
+    i = _counter_local(fn, idx_op)
+    if i is None:
+        return False
+    defs = [d for d in fn.defs().get(i, []) if d[2] == "assign"]
+    if len(defs) < 2:
+        return False
+    it = origin(fn, {"l": i, "k": "copy"})
+
+    def is_len(t):
+        if "len(" not in show(t):
+            return False
+        for x in calls_in(t):
+            if x[1].split("::")[-1] == "len" and x[3]:
+                return x[3].replace(" ", "") == coll_ty.replace(" ", "")
+        return False
+    lt_edges = []      # counter < len
+    nz_edges = {}      # const c -> edges proving c < len
+    for (b2, s2, fm, line) in edge_forms(fn):
+        terms = list(fm.lin.terms.items())
+        if fm.rel == "<=" and len(terms) == 2:
+            lens = [(t, cf) for t, cf in terms if is_len(t)]
+            others = [(t, cf) for t, cf in terms if not is_len(t)]
+            if lens and others and lens[0][1] == -1 and others[0][1] == 1 and fm.lin.k >= 1 and others[0][0] == it:
+                lt_edges.append((b2, s2))
+        if len(terms) == 1 and is_len(terms[0][0]):
+            t, cf = terms[0]
+            # len != 0  (unsigned)  or  c - len + 1 <= 0
+            if fm.rel == "!=" and fm.lin.k == 0:
+                nz_edges.setdefault(0, []).append((b2, s2))
+            if fm.rel == "<=" and cf == -1 and fm.lin.k >= 1:
+                nz_edges.setdefault(fm.lin.k - 1, []).append((b2, s2))
+    if not lt_edges:
+        return False
+    from terms import reachable_without_edges
+    for (bd, idx, kind, payload) in defs:
+        t = rvalue_origin(fn, payload["rv"], 0, frozenset(), 12)
+        edges = list(lt_edges)
+        if t[0] == "const" and isinstance(t[1], int):
+            # the initial value c needs c < len on the way: edges valid for constants >= c, checked before or after the def
+            pre = [e for c, es in nz_edges.items() if c >= t[1] for e in es]
+            if any(site_bb not in reachable_without_edges(fn, [e]) for e in pre):
+                continue
+        reach = reachable_without_edges(fn, edges, start=bd)
+        if site_bb in reach and site_bb != bd:
+            return False
+        if site_bb == bd:
+            return False
+    return True
 
 
 def _range_need(t):
@@ -238,22 +304,13 @@ def _range_need(t):
 
 
 def _min_len_guard(fn, bb, need):
-    """some controlling edge says  need - len(x) <= 0"""
-    seen = set()
-    st = [bb]
-    forms = edge_forms(fn)
-    while st:
-        x = st.pop()
-        if x in seen:
-            continue
-        seen.add(x)
-        for (a, s) in control_deps(fn).get(x, set()):
-            for (b2, s2, fm, line) in forms:
-                if b2 == a and s2 == s and fm.rel == "<=" and len(fm.lin.terms) == 1:
-                    t, cf = list(fm.lin.terms.items())[0]
-                    if cf == -1 and "len(" in show(t) and fm.lin.k >= need:
-                        return True
-            st.append(a)
+    """an edge that every path to bb takes says  need - len(x) <= 0"""
+    from terms import edge_dominates
+    for (b2, s2, fm, line) in edge_forms(fn):
+        if fm.rel == "<=" and len(fm.lin.terms) == 1:
+            t, cf = list(fm.lin.terms.items())[0]
+            if cf == -1 and "len(" in show(t) and fm.lin.k >= need and edge_dominates(fn, (b2, s2), bb):
+                return True
     return False
 
 
@@ -262,16 +319,14 @@ def _len_guard_assert(fn, bb, t):
 
 
 def _guarded_by_presence(fn, bb, op):
-    seen = set()
-    st = [bb]
-    while st:
-        x = st.pop()
-        if x in seen:
+    """an edge that every path to bb takes has is_some / is_ok / contains_key == true"""
+    from terms import edge_dominates
+    for a in range(len(fn.blocks)):
+        if fn.term(a)["k"] != "switch":
             continue
-        seen.add(x)
-        for (a, s) in control_deps(fn).get(x, set()):
+        for s in fn.succ(a):
             be = bool_edge(fn, a, s)
             if be and be[1] is True and (mentions(be[0], "is_some") or mentions(be[0], "is_ok") or mentions(be[0], "contains_key")):
-                return True
-            st.append(a)
+                if edge_dominates(fn, (a, s), bb):
+                    return True
     return False
